@@ -38,6 +38,7 @@ class Ctx:
         self.counter = 0
         self.strings = {}       # concrete str -> z3 Real const
         self.global_axioms = []  # filled by builtins_ (pi, sqrt2)
+        self.set_reversed = False  # iteration order of sets: insertion order or its reverse (set order is unspecified in Python)
         self.branch_timeout_ms = 300
         self.max_paths = 4000
         self.stats = {'feas_checks': 0, 'paths': 0}
